@@ -163,6 +163,14 @@ theorem step_Mono (cfg : Cfg) (w : World) (op : Op) : Mono w (step cfg w op) := 
           · exact Mono.of_fibers rfl
       · exact Mono.of_fibers rfl
   | procFlag k x => exact Mono.of_fibers rfl
+  | thrWait f k => exact Mono.of_fibers rfl
+  | thrDone k v e =>
+    simp only [step, thrDone]
+    split
+    · exact Mono.refl _
+    · split
+      · (apply schedule_Mono'; rfl)
+      · exact Mono.of_fibers rfl
   | childEnter f => exact setFlag_Mono w f _ rfl
   | childLeave f =>
     simp only [step]
